@@ -25,6 +25,9 @@ const (
 )
 
 type Task struct {
+	// IdleOnIO: an external task whose goroutine does not exit; it counts as dormant again whenever it waits for
+	// network input
+	IdleOnIO bool
 	ID     int
 	Name   string
 	gid    int64
@@ -175,6 +178,10 @@ func (s *Sched) Run(choose Chooser) error {
 					if r := dbproxy.GoroutineWaitReason(t.gid); strings.Contains(r, "Mutex") || strings.HasPrefix(r, "semacquire") || strings.HasPrefix(r, "sync.") {
 						t.st = stBlocked
 						s.Blocked++
+					} else if t.external && t.IdleOnIO && strings.HasPrefix(r, "IO wait") {
+						// a long-lived external goroutine (a connection reader) is back waiting for input: dormant
+						// until its next yield point
+						t.st = stDormant
 					}
 					probed = true
 				}
